@@ -1,7 +1,7 @@
 """C04 — allocation soundness."""
 from props import histprop
 PID = "C04"
-MIX = [("file", {}), ("names", {}), ("full", {}), ("dirc", {}), ("extbound", {}), ("extfull", {}), ("names", {"dostype": 4, "latin": True}), ("names", {"dostype": 5, "latin": True, "nops": 60}), ("slotsweep", {}), ("pagecross", {}), ("bigrm", {})]
+MIX = [("file", {}), ("names", {}), ("full", {}), ("dirc", {}), ("extbound", {}), ("extfull", {}), ("names", {"dostype": 4, "latin": True}), ("names", {"dostype": 5, "latin": True, "nops": 60}), ("slotsweep", {}), ("pagecross", {}), ("bigrm", {}), ("dircspill", {})]
 RULE = ('every quiescent point of seeded histories (incl. failing calls, volume-full episodes, remounts): reachability closure of the decoded image versus the on-disk bitmap: no block reached twice, none in use while marked free, none outside the volume')
 def run(res):
     histprop.run(res, PID, MIX, {"C04"}, RULE, nquick=60, nthorough=1500)
